@@ -361,6 +361,46 @@ pub fn observe(input: &[u8]) -> String {
             Err(e) => o.push_str(&err_repr(&e)),
         }
     }
+    // the non-validating skippers (their contract: well-formed UTF-8 input)
+    if vbase::refjson::accept(input).skip() {
+        use sonic_rs::JsonValueTrait;
+        o.push_str("|U");
+        for p in &paths {
+            match unsafe { sonic_rs::get_unchecked(input, p) } {
+                Ok(l) => o.push_str(&format!("g{}+{},", l.as_raw_str().as_ptr() as usize - base, l.as_raw_str().len())),
+                Err(e) => o.push_str(&err_repr(&e)),
+            }
+        }
+        for it in unsafe { sonic_rs::to_array_iter_unchecked(input) }.take(40) {
+            match it {
+                Ok(l) => o.push_str(&format!("a{}+{},", l.as_raw_str().as_ptr() as usize - base, l.as_raw_str().len())),
+                Err(e) => o.push_str(&err_repr(&e)),
+            }
+        }
+        for it in unsafe { sonic_rs::to_object_iter_unchecked(input) }.take(40) {
+            match it {
+                Ok((k, l)) => o.push_str(&format!("o{k:?}{}+{},", l.as_raw_str().as_ptr() as usize - base, l.as_raw_str().len())),
+                Err(e) => o.push_str(&err_repr(&e)),
+            }
+        }
+        if let Ok(l) = sonic_rs::from_slice::<LazyValue>(input) {
+            for p in &paths {
+                match l.pointer(p) {
+                    // (short results may be inline copies rather than borrows: report the text, not an address)
+                    Some(x) => o.push_str(&format!("l{},", x.as_raw_str())),
+                    None => o.push_str("l-,"),
+                }
+            }
+        }
+        if let Ok(ol) = sonic_rs::from_slice::<sonic_rs::OwnedLazyValue>(input) {
+            for p in &paths {
+                match ol.pointer(p) {
+                    Some(x) => o.push_str(&format!("w{},", sonic_rs::to_string(x).unwrap_or_else(|e| err_repr(&e)))),
+                    None => o.push_str("w-,"),
+                }
+            }
+        }
+    }
     o
 }
 
@@ -432,7 +472,7 @@ fn stream(seed: u64, quick: bool, shard: usize, emit: &mut dyn FnMut(&[u8])) {
     for f in &feats {
         for &len in &lens {
             for pos in 0..=len {
-                if quick && pos > 4 && pos + 4 < len && pos % 8 > 1 {
+                if quick && pos > 4 && pos + 4 < len && pos % 8 > 1 && !matches!(pos % 32, 29..=31 | 0..=2) {
                     continue;
                 }
                 k += 1;
@@ -450,6 +490,44 @@ fn stream(seed: u64, quick: bool, shard: usize, emit: &mut dyn FnMut(&[u8])) {
                 }
             }
         }
+    }
+    // one non-ASCII / invalid byte at every position of ASCII strings of every total length 60..=200
+    // (whole-input UTF-8 validation works in 64-byte steps with overlapping tails)
+    let mut k = 0usize;
+    for total in 60usize..=200 {
+        for pos in 1..total - 1 {
+            if quick && pos % 2 == 1 && !matches!(pos % 32, 30 | 31 | 0 | 1) {
+                continue;
+            }
+            k += 1;
+            if k % NSHARDS != shard {
+                continue;
+            }
+            for bad in [0x80u8, 0xff, 0xc3] {
+                let mut c = vec![0u8, b'"'];
+                c.resize(total, b'a');
+                c.push(b'"');
+                c[1 + pos] = bad;
+                emit(&c);
+            }
+        }
+    }
+    // hundreds of tiny containers, bracket bursts (state carried across blocks and containers)
+    let n_small = if quick { 40 } else { 400 };
+    for i in 0..n_small {
+        let bytes = super::c02::pseudo_bytes(seed ^ 0x17_5000, (i * NSHARDS + shard) as u64, 600);
+        let mut src = Src::new(&bytes);
+        let mut c = vec![0u8];
+        c.extend_from_slice(&gens::gen_many_small(&mut src));
+        emit(&c);
+    }
+    let n_br = if quick { 2_000 } else { 20_000 };
+    for i in 0..n_br {
+        let bytes = super::c02::pseudo_bytes(seed ^ 0x17_6000, (i * NSHARDS + shard) as u64, 300);
+        let mut src = Src::new(&bytes);
+        let mut c = vec![0u8];
+        c.extend_from_slice(&crate::lazyhelp::gen_bracket_stress(&mut src));
+        emit(&c);
     }
     // whitespace runs of every length around tokens (skip_space paths)
     for run in (shard..200).step_by(NSHARDS) {
@@ -509,7 +587,8 @@ fn transcripts(ctx: &Ctx, sub: &Sub) {
                     let mut samples = Vec::new();
                     stream(seed, quick, shard, &mut |c| {
                         vbase::crash::set_current("transcript", c);
-                        let o = observe_case(c);
+                        // a panic while observing (e.g. a &str that is not UTF-8) is an outcome like any other
+                        let o = vbase::engine::catch(|| observe_case(c)).unwrap_or_else(|p| format!("PANIC:{p}"));
                         vbase::crash::clear_current();
                         if c.len() >= 33 {
                             nt += 1;
@@ -591,7 +670,11 @@ fn transcripts(ctx: &Ctx, sub: &Sub) {
 /// replay: prints the observable outcome of the case in the current build (a single build
 /// cannot decide the property; run it in all three builds and compare)
 pub fn oracle(case: &[u8], obs: &mut Obs) -> Result<(), Fail> {
-    let o = observe_case(case);
+    let o = vbase::engine::catch(|| observe_case(case)).unwrap_or_else(|p| format!("PANIC:{p}"));
+    if std::env::var("VCHECK_DUMP").is_ok() {
+        // replaying the same file under two builds and diffing this output shows where they differ
+        println!("outcome digest {:#x}\n{}", h64(o.as_bytes()), o.replace('|', "\n|"));
+    }
     obs.render = Some(format!("outcome digest {:#x}: {}", h64(o.as_bytes()), vbase::refjson::trunc(&o, 400)));
     obs.nt();
     Ok(())
